@@ -35,3 +35,4 @@ def run(prog, rep):
     _mbt14.run(prog, rep, only=r'^nix::(Property|Section)::', floor=4)
     from ..rules import r_io as _rio14
     _rio14.run_strio(prog, rep)
+    _rio14.run_string_buffers(prog, rep)
